@@ -200,6 +200,9 @@ func runE2(engine string, pk pathKind, o *stack.Olla, a, b *stack.Backend) {
 		// an empty first line followed by real values (a front proxy that emits the header unconditionally)
 		{"via-empty-first", [][2]string{{"Via", ""}, {"Via", "1.1 edge-cache"}}},
 		{"xff-empty-first", [][2]string{{"X-Forwarded-For", ""}, {"X-Forwarded-For", "203.0.113.7"}, {"X-Forwarded-For", "198.51.100.9"}}},
+		{"xrealip-empty-first", [][2]string{{"X-Real-IP", ""}, {"X-Real-IP", "203.0.113.9"}}},
+		{"xfproto-empty-first", [][2]string{{"X-Forwarded-Proto", ""}, {"X-Forwarded-Proto", "https"}}},
+		{"xfhost-empty-first", [][2]string{{"X-Forwarded-Host", ""}, {"X-Forwarded-Host", "front.example"}}},
 		{"fwd-all", [][2]string{{"X-Forwarded-Proto", "https"}, {"X-Forwarded-Host", "front.example"}, {"X-Real-IP", "203.0.113.9"}, {"Via", "1.1 alpha, 1.1 beta"}, {"X-Forwarded-For", "203.0.113.1, 198.51.100.2"}}},
 	}
 	all := append(append([]string{}, sensitive...), "Keep-Alive", "Proxy-Authenticate", "TE", "Trailer", "Upgrade")
@@ -215,6 +218,7 @@ func runE2(engine string, pk pathKind, o *stack.Olla, a, b *stack.Backend) {
 		}
 	}
 	seq := 0
+	connSeen := map[int]string{}
 	for _, ps := range presets {
 		for si := 0; si < 4; si++ {
 			for _, mult := range []int{1, 2} {
@@ -248,11 +252,26 @@ func runE2(engine string, pk pathKind, o *stack.Olla, a, b *stack.Backend) {
 				seq++
 				mark := fmt.Sprintf("X-Verif-Only-%d", seq)
 				hs = append(hs, [2]string{mark, fmt.Sprint(seq)})
-				hs = append(hs, [2]string{"Connection", "close"})
+				// how the client manages its own connection is hop-by-hop, too. Three client shapes in turn: it asks for the
+				// connection to be closed; it keeps it alive; it closes, nominates a header of its own as hop-by-hop
+				// ("Connection: close, X-Verif-Nominated") and sends its body chunked with trailer fields
+				shape := seq % 3
+				req := &stack.Req{Method: "POST", Target: pk.target, Timeout: 8 * time.Second}
+				switch shape {
+				case 0:
+					hs = append(hs, [2]string{"Connection", "close"})
+				case 1:
+					req.KeepAlive = true
+				case 2:
+					hs = append(hs, [2]string{"Connection", "close, X-Verif-Nominated"}, [2]string{"X-Verif-Nominated", "for-the-next-hop-only"})
+					req.Chunked, req.ChunkSize = true, 32
+					req.Trailers = [][2]string{{"X-Verif-T1", "t1"}, {"Authorization", "Bearer secret-in-trailer"}, {"Cookie", "secret-trailer-cookie"}}
+				}
 				body := `{"model":"m1","max_tokens":16,"messages":[{"role":"user","content":"hi"}]}`
-				r := stack.Do(o.Addr, &stack.Req{Method: "POST", Target: pk.target, Body: []byte(body), Headers: hs, Timeout: 8 * time.Second})
+				req.Body, req.Headers = []byte(body), hs
+				r := stack.Do(o.Addr, req)
 				res.Add("evaluations", 1)
-				cell := fmt.Sprintf("engine=%s path=%s preset=%s spelling=%d multiplicity=%d", engine, pk.name, ps.name, si, mult)
+				cell := fmt.Sprintf("engine=%s path=%s preset=%s spelling=%d multiplicity=%d client=%s", engine, pk.name, ps.name, si, mult, []string{"connection-close", "keep-alive", "close+nominated-header+chunked-with-trailers"}[shape])
 				rp := map[string]any{"engine": "stack", "cell": cell}
 				reqs := append(a.Requests(), b.Requests()...)
 				if len(reqs) == 0 || r.Status != 200 {
@@ -261,6 +280,27 @@ func runE2(engine string, pk pathKind, o *stack.Olla, a, b *stack.Backend) {
 				}
 				q := reqs[len(reqs)-1]
 				res.SetAdd("distinct_nontrivial", cell)
+				// the upstream connection is olla's own business: what the backend is told about it must not depend on what the
+				// client said about its connection
+				connSeen[shape] = strings.ToLower(strings.Join(q.HeaderValues("Connection"), ","))
+				if shape == 1 {
+					if c0, ok := connSeen[0]; ok && c0 != connSeen[1] {
+						res.Violate("client-connection-management-forwarded", map[string]any{"part": "E2", "engine": engine, "what": "Connection"},
+							cell+fmt.Sprintf("\nthe backend is told Connection: %q when the client said close and %q when the client kept its connection alive", c0, connSeen[1]), rp)
+					}
+				}
+				if shape == 2 {
+					if v := q.HeaderValues("X-Verif-Nominated"); len(v) > 0 {
+						res.Violate("connection-nominated-header-forwarded", map[string]any{"part": "E2", "engine": engine}, cell+fmt.Sprintf("\nthe client listed X-Verif-Nominated in its Connection header; the backend received it: %q", v), rp)
+					}
+					for _, tf := range q.Trailers {
+						cl := "client-trailers-forwarded"
+						if denied(tf[0]) || strings.Contains(tf[1], "secret-") {
+							cl = "credential-value-forwarded"
+						}
+						res.Violate(cl, map[string]any{"part": "E2", "engine": engine, "what": "trailer"}, cell+fmt.Sprintf("\nthe backend received the trailer field %s: %s", tf[0], tf[1]), rp)
+					}
+				}
 				for _, h := range q.Headers {
 					if denied(h[0]) && !(strings.EqualFold(h[0], "Connection")) && !(strings.EqualFold(h[0], "Transfer-Encoding")) {
 						res.Violate("deny-listed-header-forwarded", map[string]any{"part": "E2", "name": http.CanonicalHeaderKey(h[0])},
